@@ -90,6 +90,10 @@ def generated_jobs(rng, thorough):
               'before 2019-05-05', 'after 3pm', 'since last Monday', 'until tomorrow', 'every Monday', 'each day at 9am',
               'Christmas', 'Thanksgiving 2018', 'Easter', 'new year\'s eve', '2 days ago', 'in 3 weeks', 'a fortnight ago',
               'Monday', 'next Friday', 'last Sunday', 'May 10', 'the 15th', 'tonight', 'this morning', 'tomorrow evening']
+    # holidays: k-th weekday of a month, fixed dates, with a year, with next/last/this
+    exprs += ['thanksgiving', 'thanksgiving 2018', 'black friday', 'mothers day', "father's day 2018", 'memorial day next year',
+              'labor day', 'mlk day', 'christmas eve', 'halloween 2020', "new year's day", 'independence day last year',
+              'columbus day', "washington's birthday", 'easter 2019', 'cinco de mayo', 'this christmas']
     # bare-number hour ranges attached to a date: every ordered pair of hours 0..23 (ambiguous / 24-hour / straddling noon)
     hour_tmpls = ['from %d to %d tomorrow', 'between %d and %d on May 5', 'from %d:30 to %d today', 'tomorrow %d-%d']
     hour_exprs = []
